@@ -23,7 +23,7 @@ import (
 // pinned returns a string whose bytes are symbolic but constrained to equal
 // want: the engine has to take its symbolic code paths (interpreted library
 // code, intrinsics, fmt summary) while the answer is known.
-func pinned(want string) string {
+func vxPinned(want string) string {
 	s := vxrt.Text("pinned", len(want))
 	vxrt.Assume(vxrt.Eq(s, want))
 	return s
@@ -37,7 +37,7 @@ func H_selftest() {
 	texts := []string{"", "a", "a\nb", "\n", "--- \n---", "x\r\ny\n", "[TestA - 1]", "/-/-/-/\n\n", "αβ\xff", "100%d"}
 	which := vxrt.Choice("text", len(texts))
 	c := texts[which]
-	s := pinned(c)
+	s := vxPinned(c)
 	eq := func(label string, got, want any) {
 		vxrt.Assert(fmt.Sprint(got) == fmt.Sprint(want), "selftest:"+label)
 	}
@@ -100,7 +100,7 @@ func H_selftest_regexp() {
 	pats := []string{`^Test[A-Z]\w*$`, `a+b`, `^\[(Test[\w/#.-]* - \d+)\]$`, `\bx\b`, `(?i)^fuzz`, `^(Test|Benchmark)A/sub$`, `[^a-c]$`, `^$`, `x*`, `(ab|a)(c|bcd)$`}
 	texts := []string{"", "TestA", "testA", "[TestA/x - 12]", "[TestA - ]", "a x b", "axb", "FuzzZ", "TestA/sub", "BenchmarkA/sub/deep", "aab", "abcd", "d"}
 	c := texts[vxrt.Choice("text", len(texts))]
-	s := pinned(c)
+	s := vxPinned(c)
 	for _, p := range pats {
 		re := regexp.MustCompile(p)
 		vxrt.Assert(re.MatchString(s) == re.MatchString(c), "selftest:regexp-pinned")
@@ -112,7 +112,7 @@ func H_selftest_regexp() {
 		return
 	}
 	f := vxrt.Text("free", 3)
-	vxrt.Assume(asciiOnly(f))
+	vxrt.Assume(vxAsciiOnly(f))
 	m, _ := regexp.MatchString(`a+b`, f)
 	ref := vxrt.Or(vxrt.And(f[0] == 'a', f[1] == 'b'), vxrt.And(f[1] == 'a', f[2] == 'b'))
 	vxrt.Assert(m == ref, "selftest:regexp-free-a+b")
@@ -127,9 +127,9 @@ func H_selftest_regexp() {
 	vxrt.Assert(m == ref, "selftest:regexp-free-word-boundary")
 }
 
-type selfErr struct{ code int }
+type vxSelfErr struct{ code int }
 
-func (e *selfErr) Error() string { return "self " + strconv.Itoa(e.code) }
+func (e *vxSelfErr) Error() string { return "self " + strconv.Itoa(e.code) }
 
 // H_selftest_lib: library models added for refactorings (sort.Slice, errors.As,
 // sync/atomic, os.Rename/RemoveAll/Mkdir, sync.Map): the same assertions hold
@@ -144,9 +144,9 @@ func H_selftest_lib() {
 	vxrt.Assert(xs[0] <= xs[1] && xs[1] <= xs[2], "selftest:sort.Slice")
 	vxrt.Assert(sort.SliceIsSorted(xs, func(i, j int) bool { return xs[i] < xs[j] }), "selftest:sort.SliceIsSorted")
 	// errors.As / errors.Is through fmt.Errorf wrapping
-	var base error = &selfErr{code: 7}
+	var base error = &vxSelfErr{code: 7}
 	wrapped := fmt.Errorf("ctx: %w", base)
-	var se *selfErr
+	var se *vxSelfErr
 	vxrt.Assert(errors.As(wrapped, &se) && se.code == 7, "selftest:errors.As")
 	var other *os.PathError
 	vxrt.Assert(!errors.As(wrapped, &other), "selftest:errors.As-miss")
@@ -167,13 +167,13 @@ func H_selftest_lib() {
 	act, loaded := m.LoadOrStore("k", 2)
 	vxrt.Assert(ok && v.(int) == 1 && !miss && loaded && act.(int) == 1, "selftest:sync.Map")
 	// file system
-	writeFile(dir+"/a.txt", "one")
-	vxrt.Assert(os.Rename(dir+"/a.txt", dir+"/b.txt") == nil && readFile(dir+"/b.txt") == "one" && readFile(dir+"/a.txt") == "<missing>", "selftest:os.Rename")
+	vxWriteFile(dir+"/a.txt", "one")
+	vxrt.Assert(os.Rename(dir+"/a.txt", dir+"/b.txt") == nil && vxReadFile(dir+"/b.txt") == "one" && vxReadFile(dir+"/a.txt") == "<missing>", "selftest:os.Rename")
 	vxrt.Assert(os.Rename(dir+"/nope", dir+"/c.txt") != nil, "selftest:os.Rename-missing")
 	vxrt.Assert(os.Mkdir(dir+"/sub", 0o755) == nil && os.Mkdir(dir+"/sub", 0o755) != nil, "selftest:os.Mkdir")
-	writeFile(dir+"/sub/x.txt", "x")
-	vxrt.Assert(os.RemoveAll(dir+"/sub") == nil && readFile(dir+"/sub/x.txt") == "<missing>" && os.RemoveAll(dir+"/sub") == nil, "selftest:os.RemoveAll")
-	names, _ := osReadDirNames(dir)
+	vxWriteFile(dir+"/sub/x.txt", "x")
+	vxrt.Assert(os.RemoveAll(dir+"/sub") == nil && vxReadFile(dir+"/sub/x.txt") == "<missing>" && os.RemoveAll(dir+"/sub") == nil, "selftest:os.RemoveAll")
+	names, _ := vxOsReadDirNames(dir)
 	vxrt.Assert(len(names) == 1 && names[0] == "b.txt", "selftest:dir-after")
 }
 
@@ -207,10 +207,10 @@ func H_selftest_refprev() {
 	b1 := vxrt.Text("body1", vxrt.Len("n1", 0, n))
 	gap := vxrt.Text("gap", vxrt.Len("ng", 0, n))
 	b2 := vxrt.Text("body2", vxrt.Len("n2", 0, n))
-	writeFile(path, "\n[TestA - 1]\n"+b1+"\n---\n"+gap+"[TestB - 1]\n"+b2+"\n---\n")
+	vxWriteFile(path, "\n[TestA - 1]\n"+b1+"\n---\n"+gap+"[TestB - 1]\n"+b2+"\n---\n")
 	for _, id := range []string{"[TestA - 1]", "[TestB - 1]", "[TestC - 1]"} {
 		g1, l1, e1 := getPrevSnapshot(id, path)
-		g2, l2, e2 := refPrev(id, path)
+		g2, l2, e2 := vxRefPrev(id, path)
 		vxrt.Assert((e1 == nil) == (e2 == nil) && vxrt.Eq(g1, g2) && l1 == l2, "selftest:reference-reader-agrees")
 	}
 }
